@@ -42,6 +42,7 @@ type Contract struct {
 	MayPanic bool // `panics *`: may panic under any circumstances
 	Pure     bool
 	Reveals  map[string]bool
+	Uses     []string
 	Expect   int // minimum number of obligations
 	File     string
 	Line     int
@@ -51,6 +52,16 @@ type GhostSet struct {
 	Target Expr
 	Value  Expr
 	Src    string
+}
+
+type Lemma struct {
+	Name string
+	Pkg  string
+	E    Expr
+	Src  string
+	Tags []string
+	File string
+	Line int
 }
 
 type LoopContract struct {
@@ -94,6 +105,7 @@ type ContractTable struct {
 	Specs    map[string]*SpecFunc
 	Impls    []ImplDecl
 	Guards   map[string]string // field key (pkg.Type.field) -> lock field name
+	Lemmas   map[string]*Lemma
 	PropFns  map[string][]string // property -> function keys (derived)
 	AllLines int
 }
@@ -105,6 +117,7 @@ func newContractTable() *ContractTable {
 		Ghosts: map[string]*GhostDecl{},
 		Specs:  map[string]*SpecFunc{},
 		Guards: map[string]string{},
+		Lemmas: map[string]*Lemma{},
 	}
 }
 
@@ -120,8 +133,8 @@ var (
 	reHeader = regexp.MustCompile(`^(\S.*?)(\(([A-Za-z0-9_, ]*)\))?\s*(\(([A-Za-z0-9_, ]*)\))?\s*(\[([A-Za-z0-9_, ]+)\])?$`)
 )
 
-var blockKeywords = map[string]bool{"func": true, "extern": true, "functype": true, "trusted": true, "loop": true, "ghost": true, "spec": true, "opaque": true, "impl": true, "guarded": true}
-var clauseKeywords = map[string]bool{"requires": true, "ensures": true, "xensures": true, "defines": true, "panics": true, "modifies": true, "invariant": true, "decreases": true, "expect": true, "vars": true, "pure": true, "ghostset": true, "reveals": true}
+var blockKeywords = map[string]bool{"func": true, "extern": true, "functype": true, "trusted": true, "loop": true, "ghost": true, "spec": true, "opaque": true, "impl": true, "guarded": true, "lemma": true}
+var clauseKeywords = map[string]bool{"requires": true, "ensures": true, "xensures": true, "defines": true, "panics": true, "modifies": true, "invariant": true, "decreases": true, "expect": true, "vars": true, "pure": true, "ghostset": true, "reveals": true, "uses": true}
 
 func splitList(s string) []string {
 	var out []string
@@ -292,6 +305,31 @@ func (ct *ContractTable) parseLines(lines []rawLine, pkg string) error {
 			}
 			g := &GhostDecl{Name: strings.TrimSpace(rest[:i]), KeySort: splitList(rest[i+1 : j]), ValType: strings.TrimSpace(rest[j+1:])}
 			ct.Ghosts[g.Name] = g
+			curC, curL = nil, nil
+		case "uses":
+			if curC == nil {
+				return errf("uses outside function contract")
+			}
+			curC.Uses = append(curC.Uses, splitList(rest)...)
+		case "lemma":
+			// lemma name [tags]: closed formula, proved once from the theory alone, usable via `uses name`
+			lm := &Lemma{Pkg: pkg, File: l.file, Line: l.line}
+			if m := reLabel.FindStringSubmatch(rest); m != nil {
+				lm.Name = m[1]
+				rest = rest[len(m[0]):]
+			} else {
+				return errf("lemma needs a name")
+			}
+			if m := reTags.FindStringSubmatch(rest); m != nil {
+				lm.Tags = splitList(m[1])
+				rest = rest[len(m[0]):]
+			}
+			e, err := parseSpecExpr(rest)
+			if err != nil {
+				return errf("%v", err)
+			}
+			lm.E, lm.Src = e, rest
+			ct.Lemmas[lm.Name] = lm
 			curC, curL = nil, nil
 		case "reveals":
 			if curC == nil {
